@@ -226,11 +226,11 @@ def analyse(m, f, spec, frees, retargets, hands=None):
                     continue
                 field, ent, saved = edge(cur, payload_, kind_ == "true") if kind_ in ("true", "false") else cur
                 if ent == "live" and field == "NEW" and f.kind != "dtor":
-                    last = [e["n"] for e in blocks[bid]["el"] if "n" in e]
+                    last = [e["n"] for e in blocks[bid]["el"] if isinstance(e.get("n"), int) and not e.get("k")]
                     note("O1x", last[-1] if last else f.body,
                          "on this exit the block owned on entry is neither released nor handed over, and the storage field points elsewhere (leak)")
                 if f.kind == "dtor" and ent == "live":
-                    last = [e["n"] for e in blocks[bid]["el"] if "n" in e]
+                    last = [e["n"] for e in blocks[bid]["el"] if isinstance(e.get("n"), int) and not e.get("k")]
                     note("O2", last[-1] if last else f.body, "the destructor can return without releasing the block")
     return findings
 
@@ -406,6 +406,15 @@ def rule_descendant(ctx, m):
                     if "n" not in e or e.get("k"):
                         return None
                     n = f.nodes[e["n"]]
+                    if n["k"] in ("CompoundAssignOperator", "BinaryOperator", "CXXOperatorCallExpr") and n.get("op") == "+=":
+                        # appending to a member container may move the block that holds this object's elements
+                        lhs = f.call_args(e["n"])[0] if n["k"] == "CXXOperatorCallExpr" else n["ch"][0]
+                        ln = f.nodes[f.strip(lhs)]
+                        if ln["k"] in ("MemberExpr", "CXXDependentScopeMemberExpr") and ln.get("tk") in ("rec", "dep", None, "other"):
+                            base = ln.get("ch", [])
+                            if (not base or f.nodes[f.strip(base[0])]["k"] in ("CXXThisExpr", "MemberExpr")) and ln.get("n") in ("array_", "object_"):
+                                return f.text(e["n"])[:60]
+                        return None
                     if n["k"] not in ("CallExpr", "CXXMemberCallExpr", "CXXOperatorCallExpr"):
                         return None
                     nm = f.call_simple_name(e["n"])
